@@ -546,6 +546,20 @@ fn run_op(op: i64, a: &[i64]) -> Result<Vec<i64>, Trap> {
                 let t = read_fonts::tables::hmtx::Hmtx::read(FontData::new(&b), n as u16, (n + m) as u16).unwrap();
                 vec![t.advance(GlyphId::new(gid)).map(|v| v as i64).unwrap_or(-1), t.side_bearing(GlyphId::new(gid)).map(|v| v as i64).unwrap_or(-1)]
             }
+            54 => {
+                // [bf, height, bias, maxv, path...]: one node per level (only the path child set), then a filled node
+                let (bf, height, bias, maxv) = (a[0] as u32, a[1] as u32, a[2] as u32, a[3] as u32);
+                let mut nodes: Vec<u32> = a[4..].iter().map(|i| 1u32 << (*i as u32)).collect();
+                nodes.push(0);
+                let stream = sbs_stream(bf, height, &nodes);
+                match read_fonts::collections::IntSet::<u32>::from_sparse_bit_set_bounded(&stream, bias, maxv) {
+                    Ok((set, _)) => match (set.first(), set.last()) {
+                        (Some(f), Some(l)) => vec![f as i64, l as i64],
+                        _ => vec![-1],
+                    },
+                    Err(_) => vec![-2],
+                }
+            }
             40 => {
                 use read_fonts::tables::glyf::PointCoord;
                 vec![<i32 as PointCoord>::midpoint(i(0), i(1)) as i64]
@@ -914,6 +928,25 @@ fn correspondence(st: &mut Stats, cw: &mut CaseWriter, rng: &mut Rng, thorough: 
         c.emit(52, v);
         let v = vec![rng.range(0, 4), rng.range(0, 4), if rng.chance(1, 4) { *rng.pick(&[65535i64, 0xFFFFFF, 0xFFFFFFFF, 100]) } else { rng.range(0, 9) }];
         c.emit(53, v);
+    }
+    // sparse bit set: filled node at every depth / first-last-random child, x bias x limit.  The limit is kept at
+    // the IFT value 0x10FFFF (or below) unless the tree covers at most 2^20 values (see gen_structured).
+    for bf in [2u32, 4, 8, 32] {
+        let mh = sbs_max_height(bf);
+        let lg = bf.trailing_zeros();
+        for height in [1u32, 2, 3, mh / 2, mh - 1, mh] {
+            for _ in 0..(if thorough { 40 } else { 12 }) {
+                let rl = rng.range(0, height as i64 - 1).max(0) as u32;
+                let plen = (*rng.pick(&[0u32, 0, 1, 2, height.saturating_sub(1), rl])).min(height - 1);
+                let path: Vec<i64> = (0..plen).map(|_| match rng.range(0, 3) { 0 => 0, 1 => bf as i64 - 1, _ => rng.range(0, bf as i64 - 1) }).collect();
+                let bias = pick_bias(rng);
+                let small_tree = lg * height <= 20;
+                let maxv = if small_tree { *rng.pick(&[u32::MAX, u32::MAX - 1, 0x10FFFF, 0, 1, 0xFFFF]) } else { *rng.pick(&[0x10FFFFu32, 0x10FFFF, 0xFFFF, 0, 1, 0xFFFFF]) };
+                let mut v = vec![bf as i64, height as i64, bias as i64, maxv as i64];
+                v.extend(path);
+                c.emit(54, v);
+            }
+        }
     }
     // += / -= of the fixed types
     for op in [33i64, 34] {
@@ -1659,7 +1692,7 @@ impl skrifa::color::ColorPainter for NopPainter {
 
 const API_NAMES: &[&str] = &[
     "metrics", "glyph_metrics", "charmap", "draw_unhinted", "draw_hinted_interpreter", "draw_autohint", "color_paint",
-    "names_attrs", "klippa_subset", "ift_select", "draw_harfbuzz_style", "bitmap_tables", "ift_apply", "bitmap_strikes",
+    "names_attrs", "klippa_subset", "ift_select", "draw_harfbuzz_style", "bitmap_tables", "ift_apply", "bitmap_strikes", "sparse_bit_set",
 ];
 
 /// Runs API number `api` on the font bytes; all randomness from (sel).
@@ -1667,6 +1700,20 @@ fn run_api(bytes: &[u8], api: usize, sel: u64) -> Result<(), Trap> {
     let bytes = bytes.to_vec();
     catch_loc(move || {
         let mut rng = Rng::new(sel);
+        if api == 14 {
+            // not a font: [bias u32][max_value u32][sparse bit set stream] (the IFT codepoint-set decoder)
+            if bytes.len() >= 8 {
+                let bias = u32::from_be_bytes([bytes[0], bytes[1], bytes[2], bytes[3]]);
+                let maxv = u32::from_be_bytes([bytes[4], bytes[5], bytes[6], bytes[7]]);
+                if let Ok((set, _rest)) = read_fonts::collections::IntSet::<u32>::from_sparse_bit_set_bounded(&bytes[8..], bias, maxv) {
+                    let _ = (set.first(), set.last(), set.iter_ranges().take(64).count());
+                }
+                if maxv == u32::MAX && bias == 0 {
+                    let _ = read_fonts::collections::IntSet::<u32>::from_sparse_bit_set(&bytes[8..]);
+                }
+            }
+            return;
+        }
         let Ok(font) = FontRef::new(&bytes) else { return };
         let ng = font.maxp().map(|m| m.num_glyphs()).unwrap_or(0) as u32;
         let gids: Vec<u32> = {
@@ -2339,6 +2386,104 @@ fn build_var_tt(rng: &mut Rng) -> (Vec<u8>, serde_json::Value) {
     (sfnt(&refs), json!({"kind": "variable-truetype", "glyph0_points": spec.pts, "unitsPerEm": spec.upem, "component_offset": [spec.comp_off.0, spec.comp_off.1], "advance": spec.advance, "lsb": spec.lsb, "gvar_tuples (glyph 0 then composite glyph 1; x, y, required)": desc, "fvar": "wght 100/400/900"}))
 }
 
+/// Packs sparse-bit-set nodes (BFS order) after the header byte. bf = 2 | 4 | 8 | 32.
+fn sbs_stream(bf: u32, height: u32, nodes: &[u32]) -> Vec<u8> {
+    let code = match bf {
+        2 => 0u8,
+        4 => 1,
+        8 => 2,
+        _ => 3,
+    };
+    let mut out = vec![code | ((height as u8 & 31) << 2)];
+    match bf {
+        2 | 4 => {
+            let mut cur = 0u8;
+            let mut sub = 0u32;
+            for n in nodes {
+                cur |= ((*n & ((1 << bf) - 1)) as u8) << sub;
+                sub += bf;
+                if sub == 8 {
+                    out.push(cur);
+                    cur = 0;
+                    sub = 0;
+                }
+            }
+            if sub != 0 {
+                out.push(cur);
+            }
+        }
+        8 => out.extend(nodes.iter().map(|n| *n as u8)),
+        _ => {
+            for n in nodes {
+                out.extend_from_slice(&n.to_le_bytes());
+            }
+        }
+    }
+    out
+}
+
+fn sbs_max_height(bf: u32) -> u32 {
+    match bf {
+        2 => 31,
+        4 => 16,
+        8 => 11,
+        _ => 7,
+    }
+}
+
+/// A random sparse tree, level by level (at most 3 live nodes per level so that the maximum heights are
+/// reachable): every node is filled (0), first child only, last child only, first + last, or random bits.
+fn gen_sbs(rng: &mut Rng) -> (Vec<u8>, String) {
+    let bf = *rng.pick(&[2u32, 4, 8, 32]);
+    let mh = sbs_max_height(bf);
+    let rh = rng.range(0, mh as i64) as u32;
+    let height = *rng.pick(&[0u32, 1, 2, 3, mh - 1, mh, mh, mh, mh + 1, rh]);
+    let mut nodes: Vec<u32> = vec![];
+    let mut live = 1usize;
+    let mut txt = String::new();
+    for depth in 1..=height.min(31) {
+        let mut next = 0usize;
+        for _ in 0..live {
+            let full: u32 = if bf == 32 { u32::MAX } else { (1 << bf) - 1 };
+            let bits = match rng.range(0, 9) {
+                0 | 1 => 0,
+                2 | 3 => 1u32 << (bf - 1),
+                4 => 1,
+                5 => 1 | (1 << (bf - 1)),
+                6 => full,
+                _ => rng.next_u32() & full,
+            };
+            nodes.push(bits);
+            txt.push_str(&format!("{:x} ", bits));
+            if bits != 0 && depth < height {
+                next += bits.count_ones() as usize;
+            }
+        }
+        txt.push_str("| ");
+        // keep the tree sparse: the decoder expects `next` nodes on the next level; cap by truncation
+        // (a truncated stream is a decoding error, which is fine)
+        live = next.min(3);
+        if live == 0 {
+            break;
+        }
+    }
+    if rng.chance(1, 10) {
+        nodes.truncate(nodes.len() / 2);
+    }
+    (sbs_stream(bf, height, &nodes), format!("bf {bf} height {height} nodes(BFS, hex) {txt}"))
+}
+
+fn pick_bias(rng: &mut Rng) -> u32 {
+    match rng.range(0, 5) {
+        0 => 0,
+        1 => *rng.pick(&[1u32, 2, 0x20, 0xFF, 0xFFFF, 0xFFFFFF, 0x10FFFF]),
+        2 => u32::MAX - rng.range(0, 4) as u32,
+        3 => rng.range(0, 0x2000) as u32,
+        4 => *rng.pick(&[0x7FFFFFFFu32, 0x80000000, 0xFFFF0000]),
+        _ => rng.next_u32(),
+    }
+}
+
 /// Structured case `idx`: (font bytes, description, API groups to run)
 fn gen_structured(rng: &mut Rng, idx: u64) -> (Vec<u8>, serde_json::Value, Vec<usize>) {
     match idx % 32 {
@@ -2366,6 +2511,64 @@ fn gen_structured(rng: &mut Rng, idx: u64) -> (Vec<u8>, serde_json::Value, Vec<u
                        "entry_map_data": "sum(entry_map_count) records, zero filled", "base": "SIMPLE_GLYF + this `IFT ` table"}),
                 vec![9],
             )
+        }
+        27 | 28 => {
+            // the sparse bit set decoder driven directly: bias x max_value x structured stream
+            let (stream, txt) = gen_sbs(rng);
+            let bias = pick_bias(rng);
+            // A filled node high in a tall tree makes the real decoder materialise the whole range (hundreds of MB
+            // for 2^32 values; a resource question for C02, not an overflow), so large limits are only combined
+            // with trees that cover at most 2^20 values; otherwise the IFT limit 0x10FFFF or smaller is used.
+            let small_tree = stream.first().map(|h| { let bf = [1u32, 2, 3, 5][(h & 3) as usize]; bf * ((h >> 2) & 31) as u32 <= 20 }).unwrap_or(true);
+            let maxv = if small_tree { *rng.pick(&[u32::MAX, u32::MAX, u32::MAX - 1, 0x10FFFF, 0, 1, 0xFFFF, 0x7FFFFFFF]) } else { *rng.pick(&[0x10FFFFu32, 0x10FFFF, 0xFFFF, 0, 1, 0xFFFFF]) };
+            let mut b = vec![];
+            be32(&mut b, bias);
+            be32(&mut b, maxv);
+            b.extend_from_slice(&stream);
+            (b, json!({"kind": "sparse-bit-set-stream", "bias": bias, "max_value": maxv, "stream": txt, "stream_hex": stream.iter().map(|x| format!("{:02x}", x)).collect::<String>(),
+                       "call": "IntSet::<u32>::from_sparse_bit_set_bounded(stream, bias, max_value)"}), vec![14])
+        }
+        29 => {
+            // IFT format 2 entries carrying a biased codepoint set (CODEPOINTS_BIT_2: u16 bias, BIT_1|BIT_2: u24 bias)
+            let n = rng.range(1, 3) as usize;
+            let mut t = vec![2u8];
+            be32(&mut t, 0);
+            for k in [1u32, 2, 3, 4] {
+                be32(&mut t, k);
+            }
+            t.push(3);
+            t.extend_from_slice(&(n as u32).to_be_bytes()[1..]);
+            be32(&mut t, 43);
+            be32(&mut t, 0);
+            be16(&mut t, 8);
+            t.extend_from_slice(&[b'A', b'B', b'C', b'D', b'E', b'F', 0xc9, 0xa4]);
+            let mut desc = vec![];
+            for _ in 0..n {
+                let (stream, txt) = gen_sbs(rng);
+                match rng.range(0, 2) {
+                    0 => {
+                        t.push(0b00010000); // CODEPOINTS_BIT_1: no bias
+                        desc.push(format!("no bias; {txt}"));
+                    }
+                    1 => {
+                        let bias = *rng.pick(&[0u16, 1, 2, 0x20, 0xFF, 0xFFFF, 0x1000]);
+                        t.push(0b00100000);
+                        be16(&mut t, bias);
+                        desc.push(format!("u16 bias {bias}; {txt}"));
+                    }
+                    _ => {
+                        let bias = *rng.pick(&[0u32, 1, 0x20, 0xFFFF, 0x10FFFF, 0xFFFFFF, 0x110000]);
+                        t.push(0b00110000);
+                        t.extend_from_slice(&bias.to_be_bytes()[1..]);
+                        desc.push(format!("u24 bias {bias}; {txt}"));
+                    }
+                }
+                t.extend_from_slice(&stream);
+            }
+            let mut tabs = simple_glyf_tables();
+            tabs.push((*b"IFT ", t));
+            let refs: Vec<(&[u8; 4], Vec<u8>)> = tabs.iter().map(|(t, b)| (t, b.clone())).collect();
+            (sfnt(&refs), json!({"kind": "ift-format2-codepoint-sets", "entries (bias; sparse bit set)": desc, "base": "SIMPLE_GLYF + this `IFT ` table"}), vec![9])
         }
         30 => {
             // cmap format 12 with groups whose startGlyphID is close to u32::MAX
